@@ -218,6 +218,23 @@ pub fn run_op(op: &ApiOp) {
             };
             let _ = sock.set_nonblocking(true);
             // IP literals, or strings that fail before any DNS lookup
+            if addr % 7 == 6 {
+                // a ToSocketAddrs that yields no address at all
+                let none: [std::net::SocketAddr; 0] = [];
+                let s2 = UdpSocket::bind("127.0.0.1:0");
+                match buffered {
+                    None => {
+                        let _ = UdpMetricSink::from(&none[..], sock).map(|_| ());
+                    }
+                    Some(c) => {
+                        let _ = BufferedUdpMetricSink::with_capacity(&none[..], sock, (*c).min(BUF_LIMIT) as usize).map(|_| ());
+                        if let Ok(s2) = s2 {
+                            let _ = BufferedUdpMetricSink::from(&none[..], s2).map(|_| ());
+                        }
+                    }
+                }
+                return;
+            }
             let addr_s = match addr % 6 {
                 0 => "127.0.0.1:9".to_string(),
                 1 => "asdf".to_string(),
